@@ -3,9 +3,9 @@
 // Lock/channel-level simulation of the real (instrumented) p2p/net/connmgr package; only its
 // exported API is used.
 //
-// FINDING on the unchanged tree (genuine, confirmed with a debug print in a private overlay; replay:
-// harness/c14/finding-entry-forgotten.replay.json; classes C14/entry-forgotten and, when the peer is
-// re-connected before the next check, C14/peer-conns/forgotten; later symptom C14/conn-count/too-high):
+// FINDING (genuine; fixed in /repo by 6dd3d62, see known_findings.json "fixed"; classes C14/entry-forgotten
+// and, when the peer is re-connected before the next check, C14/peer-conns/forgotten; later symptom
+// C14/conn-count/too-high):
 // getConnsToClose prunes an early-tag ("temp") candidate with delete(s.peers, inf.id) (connmgr.go:526)
 // without checking that the candidate is still the entry stored under that id. The background loop calls
 // cm.trim() without the trim mutex, so it can overlap a TrimOpenConns call; both collect the same temp
@@ -45,7 +45,16 @@
 //	                                                                       -> tag-total/value (about 500-700 runs)
 //	not caught, equivalent mutants: M12 "count <= low" early return removed, M15 "ncandidates < low" early
 //	return removed (target <= 0 in both cases, so nothing is selected anyway).
-//	Unchanged tree: only the finding above (about 1 run in 2 000-5 000); nothing else in >150 000 runs.
+//	Tree before 6dd3d62: only the finding above (about 1 run in 2 000-5 000); nothing else in >150 000 runs.
+//	seeded changes evaluated by the coordinator (scratch worktree + VERIF_REPO, 8 workers)
+//	S2  decayer tick: "value += after - v.Value" also when the decay function removes the tag with after != 0
+//	    (missed while the harness decay functions only removed at exactly 0; now the exported presets and an
+//	    overshooting function are drawn, bump deltas -2..6)                 -> tag-total/value, lower-valued-kept/*
+//	S3a UpsertTag: callback run outside the segment lock, stale old value applied (missed while the callback
+//	    had no scheduling point and every peer had one writer)              -> tag-total/value-vs-tags (every worker, <= 250 runs each)
+//	S3b Unprotect: read-locked fast path working on the set fetched before the write lock (three-way race of
+//	    Protect/Unprotect callers on one peer)                              -> protect-state (sampled and at quiescence),
+//	    closed-protected/TrimOpenConns (about 1 run in 1 500: 6 of 8 workers within 30 s)
 //
 // Not part of C14 but recorded (probe forcetrim-left-above-low-overall; C14_FORCETRIM_DOC=1 turns it into
 // class C14/doc/forcetrim-left-above-low): ForceTrim's documentation promises "down to the low watermark"
@@ -72,6 +81,18 @@
 //   - Watermarks are positive (low = 0 or high = 0 silently disables trimming; not exercised).
 //   - "kept" peer = has a tracked connection on which CloseWithError was never called up to the
 //     trim's return; "closed" peer = CloseWithError was called on one of its connections by this trim.
+//   - Protection under concurrent callers is judged from the history of Protect/Unprotect calls alone:
+//     a tag is "certainly set" over [a,b] if some Protect(tag) returned before a and every Unprotect(tag)
+//     either returned before that Protect was invoked or was invoked after b; "certainly unset" if every
+//     Protect(tag) invoked before b is followed by an Unprotect(tag) invoked after it returned and
+//     returned before a. A peer with a certainly-set tag during a whole trim call must not be closed by a
+//     regular/background trim, IsProtected must report a certainly-set tag (sampled between operations and
+//     at quiescence) and must not report a certainly-unset one at quiescence; a "kept eligible" peer must be
+//     certainly unprotected for the whole call. With one caller per peer this is the exact model.
+//   - GetTagInfo(p).Value must equal the sum of GetTagInfo(p).Tags at every quiescent instant, whatever
+//     the history (every tag operation updates tag and total together) — this is the only tag oracle for
+//     peers written by several tasks (shared-peer mode), whose tag values depend on the linearisation.
+//   - UpsertTag's callback is caller code and may take time: it contains 0-3 scheduling points.
 //   - Under concurrency (and for background trims, whose start is not observable) a peer takes part
 //     in a comparison only if no operation that can change the compared attribute overlaps the
 //     trim window (stamps), and whole-population bounds are only asserted when no operation that
